@@ -332,11 +332,13 @@ class IMAPSearch:
         defined in [RFC-822]) and that contains the specified string
         in the [RFC-822] field-body.
         """
-        header = self.args["header"]
+        # NOTE: A field may occur more than once (`Received:`). `msg[header]`
+        #       is the first occurrence only.
+        #
         msg = self.ctx.msg()
-        return (
-            header in msg
-            and msg[header].lower().find(self.args["string"]) != -1
+        return any(
+            self.args["string"] in str(value).lower()
+            for value in msg.get_all(self.args["header"], [])
         )
 
     #########################################################################
